@@ -3,10 +3,8 @@ CONSTANTS
   Pods = {"p1", "p2"}
   Nodes = {"n1", "n2", "n3"}
   Wls = {"w1", "w2", "w3", "w4"}
-  Apps = {"a", "b"}
-  Entries = {"x", "y"}
   Idents = {"i1"}
   MaxOps = 14
-INVARIANT NodesInPods
+INVARIANTS NodesInPods IdxHasValue
 CONSTRAINT Emit
 CHECK_DEADLOCK FALSE
